@@ -136,24 +136,50 @@ inductive Op where
   | page (p : Str) (q : Nat) (a : Str)
   | loop (p : Str) (q : Nat)
   | pairs (p : Option Str)
+  | at (i : Nat) (q : Op)       -- a query against the `i`-th committed state (0 = genesis)
   | bad
 deriving Repr
 
-/-- state of a run: the Go trie, the ordered map, the number of `put`s so far (cap of the loop) -/
+/-- a request (as opposed to a state change, an `at`, a malformed op) -/
+def Op.isQuery : Op → Bool
+  | .page _ _ _ => true
+  | .loop _ _ => true
+  | .pairs _ => true
+  | _ => false
+
+/-- state of a run: the working state (Go trie and ordered map), the number of `put`s so far (cap
+    of the loop), whether it changed since the last commit, and the committed states in order —
+    one per block of the chain, the genesis (empty) state first.  The storage serves the LAST one
+    for a request without a block (`nil` root = best block). -/
 structure St where
   t : Trie
   es : Entries
   puts : Nat
+  dirty : Bool
+  hist : List (Trie × Entries)
 
-def St.init : St := { t := Trie.nil, es := [], puts := 0 }
+def St.init : St := { t := Trie.nil, es := [], puts := 0, dirty := false, hist := [(Trie.nil, [])] }
 
-/-- state-building ops; `del` of a key that is not stored is a no-op of the harness -/
+/-- a request that follows state changes first commits them as a new best block -/
+def St.commit (s : St) : St :=
+  if s.dirty then { s with dirty := false, hist := s.hist ++ [(s.t, s.es)] } else s
+
+/-- `del` of a key that is not stored is a no-op of the harness; `at` does not commit -/
 def St.apply (s : St) : Op → St
-  | .put k v => { t := Trie.put s.t k v, es := OMap.upsert k v s.es, puts := s.puts + 1 }
+  | .put k v => { s with t := Trie.put s.t k v, es := OMap.upsert k v s.es, puts := s.puts + 1,
+                         dirty := true }
   | .del k =>
-    if (OMap.get k s.es).isSome then { s with t := Trie.delete s.t k, es := OMap.erase k s.es }
+    if (OMap.get k s.es).isSome then
+      { s with t := Trie.delete s.t k, es := OMap.erase k s.es, dirty := true }
     else s
+  | .page _ _ _ => s.commit
+  | .loop _ _ => s.commit
+  | .pairs _ => s.commit
   | _ => s
+
+/-- the state the storage serves for a request without a block: the one of the best block, i.e.
+    the last committed one once the pending changes are committed -/
+def St.best (s : St) : Trie × Entries := (s.commit.hist.getLast?).getD (s.t, s.es)
 
 /-! ### observables -/
 
@@ -188,17 +214,32 @@ def observe (S : Store) (paged pairs : Bool) (fuel : Nat) : Op → String
   | .page p q a => showPage (getKeysPaged S paged p q a)
   | .loop p q => showLoop (paginate (getKeysPaged S paged p q) fuel [])
   | .pairs p => showPairs (getPairs S pairs p)
+  | .at _ _ => "bad-op"
   | .bad => "bad-op"
 
-/-- the Go code: the trie, and a block field that is used as a state root by `GetKeysPaged` and as
-    a block hash by `GetPairs` -/
-def stepModel (addr : Addr) (s : St) (op : Op) : String :=
-  observe (trieStore s.t) (addr != .blk) (addr != .root) (s.puts + 2) op
+/-- the Go code: the trie of the best block (`St.best`: the storage resolves a missing block to the
+    best block's state on every call, nothing is remembered between calls), and a block field that
+    is used as a state root by `GetKeysPaged` and as a block hash by `GetPairs`; `at i` addresses
+    the `i`-th committed state by its root / block hash, which both resolve -/
+def stepModel (addr : Addr) (s : St) : Op → String
+  | .at i q =>
+    if q.isQuery then
+      match s.hist[i]? with
+      | none => "bad-ix"
+      | some st => observe (trieStore st.1) true true (s.puts + 2) q
+    else "bad-op"
+  | op => observe (trieStore s.best.1) (addr != .blk) (addr != .root) (s.puts + 2) op
 
-/-- the property: the ordered map; the block hash (or nothing) selects the state in both calls;
-    a state root in the block field works for `GetKeysPaged` as it does in the code -/
-def stepSpec (addr : Addr) (s : St) (op : Op) : String :=
-  observe (mapStore s.es) true (addr != .root) (s.puts + 2) op
+/-- the property: the ordered map of the addressed state; the block hash (or nothing) selects the
+    state in both calls; a state root in the block field works for `GetKeysPaged` as in the code -/
+def stepSpec (addr : Addr) (s : St) : Op → String
+  | .at i q =>
+    if q.isQuery then
+      match s.hist[i]? with
+      | none => "bad-ix"
+      | some st => observe (mapStore st.2) true true (s.puts + 2) q
+    else "bad-op"
+  | op => observe (mapStore s.best.2) true (addr != .root) (s.puts + 2) op
 
 def runFrom (step : St → Op → String) (s : St) : List Op → List String
   | [] => []
@@ -209,22 +250,29 @@ def runFrom (step : St → Op → String) (s : St) : List Op → List String
 /-- the byte prefix a request string denotes (after the `""` → `"0x"` default), if it is valid -/
 def prefixOf (p : Str) : Option Bytes := hexToBytes? (if p.isEmpty then ['0', 'x'] else p)
 
+/-- the prefix bytes of a request whose listing goes through `GetKeysWithPrefix` -/
+def listedPrefix : Op → Option Bytes
+  | .page p _ _ => prefixOf p
+  | .loop p _ => prefixOf p
+  | .pairs (some p) => hexToBytes? p
+  | _ => none
+
+/-- `GetKeysPaged` (not `GetPairs`) -/
+def Op.isPaged : Op → Bool
+  | .page _ _ _ => true
+  | .loop _ _ => true
+  | _ => false
+
 def kfTag (addr : Addr) (s : St) : Op → String
-  | .page p _ _ =>
-    match prefixOf p with
+  | .at i q =>
+    match s.hist[i]?, listedPrefix q with
+    | some st, some hp => if trimRegion hp st.2 then "prefix-zero-nibble" else ""
+    | _, _ => ""
+  | op =>
+    match listedPrefix op with
     | none => ""
-    | some hp => if addr == .blk then "paged-block-as-root"
-                 else if trimRegion hp s.es then "prefix-zero-nibble" else ""
-  | .loop p _ =>
-    match prefixOf p with
-    | none => ""
-    | some hp => if addr == .blk then "paged-block-as-root"
-                 else if trimRegion hp s.es then "prefix-zero-nibble" else ""
-  | .pairs (some p) =>
-    match hexToBytes? p with
-    | none => ""
-    | some hp => if trimRegion hp s.es then "prefix-zero-nibble" else ""
-  | _ => ""
+    | some hp => if op.isPaged && addr == .blk then "paged-block-as-root"
+                 else if trimRegion hp s.best.2 then "prefix-zero-nibble" else ""
 
 /-- tag of the first op whose model and spec observables differ -/
 def firstTag (addr : Addr) (s : St) : List Op → String
@@ -248,7 +296,7 @@ def parseQty? (s : String) : Option Nat :=
   | some n => if n < 4294967296 then some n else none
   | none => none
 
-def parseOp (s : String) : Op :=
+def parseQuery (s : String) : Op :=
   match words s with
   | ["put", k, v] => match ofHex? k, ofHex? v with
     | some k, some v => .put k v
@@ -262,6 +310,14 @@ def parseOp (s : String) : Op :=
     | none => .bad
   | ["pairs", p] => if p = "nil" then .pairs none else .pairs (some (strTok p))
   | _ => .bad
+
+def parseOp (s : String) : Op :=
+  match words s with
+  | "at" :: i :: rest =>
+    match parseNat? i, parseQuery (" ".intercalate rest) with
+    | some i, q => if q.isQuery ∧ i < 2147483648 then .at i q else .bad
+    | none, _ => .bad
+  | _ => parseQuery s
 
 def parseAddr? (s : String) : Option Addr :=
   if s = "nil" then some .nil else if s = "root" then some .root
